@@ -6,7 +6,7 @@
    `interval` tactic (interval arithmetic, 100 bits) after unfolding the model. *)
 From Coq Require Import Reals List Lra.
 From Interval Require Import Tactic.
-From AL Require Import C13.Model.
+From AL Require Import C13.Model C13.Sampled.
 Import ListNotations.
 Open Scope R_scope.
 
@@ -52,4 +52,24 @@ Ltac c13_enclose := c13_prep; interval with (i_prec 100).
 Ltac c13_decide tag :=
   first [ left; c13_enclose
         | idtac "C13REFUTED" tag; right; left; c13_enclose
+        | idtac "C13UNDECIDED" tag; right; right; exact I ].
+
+(* first section of gammatone.sampled: replace the iterated derivative by its closed form,
+   then abstract every cos / sin / exp leaf by a variable with a 100-bit enclosure *)
+Ltac c13_abs1 t :=
+  let Hb := fresh "Hb" in let x := fresh "x" in
+  interval_intro t with (i_prec 100) as Hb; set (x := t) in *; clearbody x.
+Ltac c13_absall :=
+  repeat match goal with
+  | |- context [cos ?t] => c13_abs1 (cos t)
+  | |- context [sin ?t] => c13_abs1 (sin t)
+  | |- context [exp ?t] => c13_abs1 (exp t)
+  end.
+Ltac c13_enclose_sampled :=
+  cbv beta iota zeta delta [enc out gammatone_sampled sampled_num gammatone_den Nat.sub];
+  first [ rewrite !sampled_closed_4 | rewrite !sampled_closed_3 | rewrite !sampled_closed_2 | idtac ];
+  c13_unfold; c13_absall; interval with (i_prec 100).
+Ltac c13_decide_sampled tag :=
+  first [ left; c13_enclose_sampled
+        | idtac "C13REFUTED" tag; right; left; c13_enclose_sampled
         | idtac "C13UNDECIDED" tag; right; right; exact I ].
